@@ -1373,7 +1373,9 @@ theorem build_fd (cfg : Cfg) (st0 : St) (mods : List ModSpec) (ios : List TaskIO
       (runBuild cfg mods ios st0).w.py.pdbSaved = st0.w.py.pdbSaved ∧
       (runBuild cfg mods ios st0).w.py.reportVars = 0 ∧
       (runBuild cfg mods ios st0).w.py.provisional = [] ∧
-      (runBuild cfg mods ios st0).w.py.collected = [] := by
+      (runBuild cfg mods ios st0).w.py.collected = [] ∧
+      (runBuild cfg mods ios st0).w.py.garbage =
+        st0.w.py.garbage ++ st0.w.py.dbFd.toList ++ (st0.cm.map CM.owned).getD [] := by
   obtain ⟨⟨t0, e0, l0⟩, ⟨t1, e1, l1⟩, ⟨t2, e2, l2⟩⟩ := hw.os
   have hb := beforeCapture_std cfg st0 hw
   obtain ⟨p, hp, pt0, pt1, pt2, pg0, pg1, pg2, cfile, ccount, csecs, ctasks, ccf, cmisc⟩ :=
@@ -1413,7 +1415,7 @@ theorem build_fd (cfg : Cfg) (st0 : St) (mods : List ModSpec) (ios : List TaskIO
     rw [wmisc.2.2.1, lmisc.2.2.1, hse_py, hsd_py]; simp only []; rw [cmisc.2.1, cmisc.2.2.1, hbc]; rfl
   obtain ⟨u1, u2, u3, u4⟩ := unconfigure_all cfg sg _ _ hpdb
   simp only [runOps, List.foldl_cons, List.foldl_nil] at u1 u2 u3 u4
-  refine ⟨p, ins, r3.inert u1, by rw [pt0, e0], by rw [pt1, e1], by rw [pt2, e2], ?_, ?_, ?_, ?_, ?_, ?_, ?_, ?_, ?_, ?_, ?_⟩
+  refine ⟨p, ins, r3.inert u1, by rw [pt0, e0], by rw [pt1, e1], by rw [pt2, e2], ?_, ?_, ?_, ?_, ?_, ?_, ?_, ?_, ?_, ?_, ?_, ?_⟩
   · rw [pg1]; show st0.w.os.files.length < st0.w.os.openNew.1.files.length + 1; simp; omega
   · rw [pg2]; show st0.w.os.files.length < st0.w.os.openNew.1.files.length + 2; simp; omega
   · rw [u1.secs, wsecs, lsecs, ← hse, ← hsd]; show sc.secs ++ _ = _; rw [csecs]; rfl
@@ -1431,6 +1433,8 @@ theorem build_fd (cfg : Cfg) (st0 : St) (mods : List ModSpec) (ios : List TaskIO
   · rw [u4]
   · rw [u4]
   · rw [u4]
+  · rw [u4]; simp only []; rw [wmisc.2.2.2.2.2.2.2.2.1, lmisc.2.2.2.2.2.2.2.2.1, hse_py, hsd_py]; simp only []
+    rw [cmisc.2.2.2.2.2.2.2.2.1, hbc]; rfl
 
 
 theorem phases_sys_extra (cfg : Cfg) (p : SysP) (phs : List Phase) (st : St) (h : ∃ ins, SysReady st p ins) :
@@ -1598,5 +1602,100 @@ theorem build_no (cfg : Cfg) (st0 : St) (mods : List ModSpec) (ios : List TaskIO
   · rw [u4]
   · rw [u4]
   · rw [u4]
+
+/-! ## Layer 5 — vocabulary of the property statements -/
+
+/-- channels whose output the capture method puts into the task's report sections -/
+def captured : Method → Chan → Bool
+  | .fd, _ => true
+  | .sys, c => c.isPy
+  | .teeSys, c => c.isPy
+  | .no, _ => false
+
+/-- channels whose output reaches the process's real streams while a task runs -/
+def reaches : Method → Chan → Bool
+  | .fd, _ => false
+  | .sys, c => !c.isPy
+  | .teeSys, _ => true
+  | .no, _ => true
+
+/-- the sections of a finished build, for every capture method -/
+theorem build_secs (cfg : Cfg) (st0 : St) (mods : List ModSpec) (ios : List TaskIO)
+    (hcf : cfg.configFails = false) (hw : StdW st0.w) :
+    (runBuild cfg mods ios st0).secs = (phaseList ios).flatMap (Phase.secs (captured cfg.method)) := by
+  cases hm : cfg.method
+  · obtain ⟨p, ins, _, _, _, _, _, _, h, _⟩ := build_fd cfg st0 mods ios hm hcf hw
+    rw [h]; rfl
+  · obtain ⟨p, ins, _, _, _, _, h, _⟩ := build_sys cfg st0 mods ios false (by simp [hm]) hcf hw
+    rw [h]; rfl
+  · obtain ⟨t1, t2, _, _, _, h, _⟩ := build_no cfg st0 mods ios hm hcf hw
+    rw [h]; simp [Phase.secs, secsOf, outText, captured]
+  · obtain ⟨p, ins, _, _, _, _, h, _⟩ := build_sys cfg st0 mods ios true (by simp [hm]) hcf hw
+    rw [h]; rfl
+
+theorem mem_secsOf {s : Sec} {t : Nat} {wh : String} {out err : Data} (h : s ∈ secsOf t wh out err) :
+    s.task = t ∧ s.when = wh ∧ s.text ≠ [] ∧ s.text = (if s.err then err else out) := by
+  unfold secsOf at h
+  rcases List.mem_append.1 h with h | h
+  · split at h
+    · cases h
+    · rename_i ne; simp at h; subst h; simp_all
+  · split at h
+    · cases h
+    · rename_i ne; simp at h; subst h; simp_all
+
+/-- closing `l` closes at most `l.length` descriptors -/
+theorem count_closeAll (l : List Nat) (o : OS) : o.count ≤ (l.foldl (fun o i => o.close i) o).count + l.length := by
+  induction l generalizing o with
+  | nil => simp
+  | cons i l ih =>
+    have h1 := ih (o.close i)
+    have h2 := o.count_setFd i none
+    simp only [List.foldl_cons, List.length_cons, OS.close_eq] at h1 h2 ⊢
+    split at h2 <;> omega
+
+theorem owned_cap_le (c : Option Cap) : ((c.map Cap.owned).getD []).length ≤ 1 := by
+  cases c with
+  | none => simp
+  | some c => cases c <;> simp [Cap.owned] <;> split <;> simp
+
+theorem owned_cm_le (c : Option CM) : ((c.map CM.owned).getD []).length ≤ 3 := by
+  cases c with
+  | none => simp
+  | some c =>
+    cases hc : c.capturing with
+    | none => simp [CM.owned, hc]
+    | some m =>
+      have a := owned_cap_le m.in_; have b := owned_cap_le m.out; have d := owned_cap_le m.err
+      simp [CM.owned, hc, MC.owned] at a b d ⊢; omega
+
+/-! ## Layer 6 — repeated collection in one process (F7) -/
+
+/-- interpreter state after `k` builds over `mods` in one process, as far as collection is concerned: each build
+collects (`collectAll`) and `task.pytask_unconfigure` clears `COLLECTED_TASKS`; nothing else in a build touches
+`sys.modules` entries of task modules or `COLLECTED_TASKS` -/
+def pyAfter (mods : List ModSpec) : Nat → Py
+  | 0 => {}
+  | k + 1 => { (collectAll (pyAfter mods k) mods).1 with collected := [] }
+
+/-- what the `k`-th build (0-based) of the process collects: tasks and whether collection failed -/
+def collectedAt (mods : List ModSpec) (k : Nat) : List (Nat × Nat) × Bool := (collectAll (pyAfter mods k) mods).2
+
+theorem collectAll_plain (mods : List ModSpec) (h : ∀ m ∈ mods, m.decorated = [] ∧ m.fails = false) (p : Py)
+    (hc : p.collected = []) :
+    (collectAll p mods).2 = (mods.flatMap (fun m => m.plain.map (fun f => (m.id, f))), false) ∧
+    (collectAll p mods).1.collected = [] := by
+  induction mods generalizing p with
+  | nil => simp [collectAll, hc]
+  | cons m ms ih =>
+    obtain ⟨hd, hf⟩ := h m (by simp)
+    have h1 : (collectModule p m).2 = (m.plain.map (fun f => (m.id, f)), false) ∧ (collectModule p m).1.collected = [] := by
+      unfold collectModule; split
+      · simp [hc]
+      · simp [hd, hf, hc]
+    obtain ⟨a, b⟩ := ih (fun x hx => h x (by simp [hx])) (collectModule p m).1 h1.2
+    simp only [collectAll]
+    refine ⟨?_, b⟩
+    rw [a, h1.1]; simp
 
 end Pytask.Capture
